@@ -341,8 +341,15 @@ func (c *context) RecvMsg() (*protocol.Message, error) {
 	}
 
 	m := c.repMsg
-	c.reqID = 0
-	c.repMsg = nil
+	if c.reqID == id {
+		c.reqID = 0
+		c.repMsg = nil
+	} else {
+		// The request we were waiting for was abandoned (canceled, or
+		// replaced by a newer Send).  Any state now present belongs to
+		// a newer request and must be left alone.
+		m = nil
+	}
 	c.receiveWait = false
 	c.cond.Broadcast()
 
